@@ -503,6 +503,41 @@ class C12(Prop):
         self.pending = []
         return out
 
+    def _state_probe(self, tag, c, seed, reg):
+        """a form g that shares every mesh / space / terminal with f but numbers the domains differently must get the signature
+        it gets when it is the only form the process ever looked at (and vice versa).  False: not applicable; None: fine"""
+        def derived(f):
+            from ufl.domain import extract_domains
+            from ufl import Form
+            its = f.integrals()
+            ms = list(extract_domains(f))
+            if len(ms) >= 2:
+                order = {m: k for k, m in enumerate(ms)}
+                its = [it.reconstruct(domain=ms[(order[it.ufl_domain()] + 1) % len(ms)]) for it in its]
+            elif len(its) >= 2:
+                its = its[1:]
+            return Form(list(its))
+
+        def fresh():
+            if tag == "random":
+                return c12lib.build_form(seed * 1000003 + c, reg)[0]
+            return run_directed(c, reg)
+        try:
+            g_alone = derived(fresh()); s_alone = c12lib.sigof(g_alone)
+            f2 = fresh(); g2 = derived(f2)
+            c12lib.sigof(f2); hash(f2); repr(f2)
+            s_after = c12lib.sigof(g2)
+            f3 = fresh(); s_f_alone = c12lib.sigof(f3)
+            f4 = fresh(); g4 = derived(f4); c12lib.sigof(g4); s_f_after = c12lib.sigof(f4)
+        except Exception:  # noqa
+            return False
+        if s_alone != s_after or s_f_alone != s_f_after:
+            x, y = (s_alone, s_after) if s_alone != s_after else (s_f_alone, s_f_after)
+            return Witness("the signature of a form depends on which other form sharing its spaces / terminals had its signature computed before "
+                           "(process state): %s %s: alone %s.. / after the other form %s.." % (tag, c, x[:12], y[:12]),
+                           "C12:unexplained:process-state", dict(kind="process-state", tag=tag, case=c, seed=seed, regime=reg.describe()))
+        return None
+
     def oracle(self, ctx, ev):
         self.ctx_seed = ctx.seed
         self.pending = []
@@ -579,6 +614,18 @@ class C12(Prop):
         ev.cov["failing_pairs_attributed"] = len(self.pending)
         add(self._attribute_pending())
 
+        # process state left on shared objects (see _state_probe)
+        nstate = 0
+        state_cases = [("random", c) for c in range(25 if ctx.quick else 250)] + [("directed", n) for n in ("two_domains", "foreign_domain", "mesh_geometry", "normal_sum")]
+        for tag, c in state_cases:
+            w = self._state_probe(tag, c, ctx.seed, self.regs[1 % len(self.regs)] if tag == "random" else dregs[0])
+            if w is not False:
+                nstate += 2
+            if w:
+                add([w])
+        stats["process_state_checks"] = nstate
+        ncmp += nstate
+
         # hash seeds and processes: the same (case, regime) built in a fresh interpreter under other PYTHONHASHSEEDs
         seeds = [0, 1] if ctx.quick else [0, 1, 2, 3, 7, 123456]
         nw = 30 if ctx.quick else 300
@@ -622,6 +669,8 @@ class C12(Prop):
         d = data.get("data", data)
         self.ctx_seed = d.get("seed", 0)
         kind = d.get("kind")
+        if kind == "process-state":
+            return self._state_probe(d["tag"], d["case"], d["seed"], Regime.of(d["regime"])) or None
         if kind == "equal-count":
             sigs = set()
             for hseed in range(6):
